@@ -4,6 +4,7 @@ import (
 	"bytes"
 	"errors"
 	"fmt"
+	"io"
 	"regexp"
 	"strconv"
 	"strings"
@@ -161,6 +162,20 @@ func programLines(out string) (prog []string, instr [][]string, stacks int, stat
 		}
 	}
 	return
+}
+
+// fnWriter and teeWriter are writers whose dynamic types cannot be compared with ==.
+type fnWriter func(p []byte) (int, error)
+
+func (f fnWriter) Write(p []byte) (int, error) { return f(p) }
+
+type teeWriter struct{ ws []io.Writer }
+
+func (t teeWriter) Write(p []byte) (int, error) {
+	for _, w := range t.ws {
+		w.Write(p)
+	}
+	return len(p), nil
 }
 
 // failWriter accepts limit bytes and then fails every write.
@@ -396,6 +411,56 @@ func (c19) Run(t *testing.T, sc *Scenario) *Outcome {
 			}
 		}
 		o.fault("output_write_error", 1)
+	}
+	if len(o.Violations) > 0 {
+		return o
+	}
+	// ---- writers that are plain values (a func adapter, a struct holding a slice) rather than
+	// pointers, of one dynamic type for output and log, and one writer serving as both (2>&1)
+	if len(sc.Src) < 20000 {
+		for style := 0; style < 3; style++ {
+			var ref string
+			for opt := 0; opt < 8; opt++ {
+				var outb, logb bytes.Buffer
+				var ow, lw io.Writer
+				switch style {
+				case 0:
+					ow = fnWriter(func(p []byte) (int, error) { return outb.Write(p) })
+					lw = fnWriter(func(p []byte) (int, error) { return logb.Write(p) })
+				case 1:
+					ow, lw = teeWriter{[]io.Writer{&outb}}, teeWriter{[]io.Writer{&logb}}
+				default:
+					ow, lw = &logb, &logb
+				}
+				var res string
+				func() {
+					defer func() {
+						if x := recover(); x != nil {
+							res = "panic: " + panicSig(x)
+						}
+					}()
+					prog, err := bcl.Parse(sc.Src, sc.Name, bcl.OptOutput(ow), bcl.OptLogger(lw), bcl.OptDisasm(opt&OptDisasm != 0), bcl.OptStats(opt&OptStats != 0))
+					if err != nil {
+						res = "parse error: " + err.Error()
+						return
+					}
+					bs, bd, err := bcl.Execute(prog, bcl.OptOutput(ow), bcl.OptLogger(lw), bcl.OptTrace(opt&OptTrace != 0), bcl.OptStats(opt&OptStats != 0))
+					res = "blocks: " + RenderBlocks(bs) + " binding: " + RenderBinding(bd) + " error: " + errText(err)
+				}()
+				if style < 2 {
+					res += " log: " + logb.String()
+				}
+				o.Evals++
+				if opt == 0 {
+					ref = res
+				} else if res != ref {
+					o.viol("C19", "result-changed", "with value-typed or shared writers the options change the result",
+						fmt.Sprintf("writer style %s, %s: %q vs %q without options", []string{"func adapter", "struct with a slice", "one writer for output and log"}[style], optName(opt), short(res, 300), short(ref, 300)), withOpt(opt))
+					break
+				}
+			}
+		}
+		o.probe("value_writer_passes", 1)
 	}
 	if len(o.Violations) > 0 {
 		return o
